@@ -155,7 +155,7 @@ class Result:
 
 
 def explore(world, harness, max_paths=200000, panic_is_violation=True, stop_at_first=False, prefix=None,
-            step_limit=200000, time_budget=None, sample_fn=None, frontier=None):
+            step_limit=200000, time_budget=None, sample_fn=None, frontier=None, split_after=None):
     """Run `harness(ex)` on every feasible path. Returns Result."""
     res = Result()
     t0 = time.time()
@@ -210,7 +210,7 @@ def explore(world, harness, max_paths=200000, panic_is_violation=True, stop_at_f
         tr[-1] = list(tr[-1])
         tr[-1][0] += 1
         prefix = tr
-        if res.paths >= max_paths:
+        if res.paths >= max_paths or (frontier is not None and split_after and time.time() - t0 > split_after):
             if frontier is not None:
                 # hand the unexplored siblings back to the scheduler
                 for i in range(base, len(tr)):
